@@ -264,8 +264,11 @@ def run_case(case, repo_checks=True):
     R.api = []            # user-thread API events
     R.end = {}
     R.harness_error = None
+    R.sem_state = None
     R.reenter_exc = InjectedFault('reenter.set_exception')
     R.fs_watch_violations = []
+    from .oracles import install_c06_watch
+    install_c06_watch(R)
     Sub = make_subscriber_cls()
     cfgkw = dict(case['cfg'])
     serial = case.get('exec') == 'serial'
@@ -404,11 +407,28 @@ def run_case(case, repo_checks=True):
     def task_started(i):
         return task_start_step(i) is not None
 
+    R.announced = {}
+    R.listing_at_announce = {}
+
+    def all_recs():
+        fr = getattr(R, 'fresh', None)
+        return R.transfers + ([fr] if fr is not None else [])
+    R.all_recs = all_recs
+
     def poll_done(s):
-        for r in R.transfers:
+        for r in all_recs():
             f = r['future']
-            if f is not None and r['i'] not in R.first_done and f.done():
-                R.first_done[r['i']] = s.step
+            if f is None:
+                continue
+            i = r['i']
+            if i not in R.first_done and f.done():
+                R.first_done[i] = s.step
+            if i not in R.announced:
+                ev = getattr(f._coordinator, '_done_event', None)
+                if ev is not None and ev.is_set():
+                    # result() no longer blocks from this step on
+                    R.announced[i] = s.step
+                    R.listing_at_announce[i] = fs.listing()
     sched.step_hooks.append(poll_done)
 
     R.cancel_log = []
@@ -430,6 +450,16 @@ def run_case(case, repo_checks=True):
             c['done_before'] = f.done()
             c['status_before'] = f._coordinator.status
             c['task_started'] = task_started(ti)
+            c['before'] = None
+            ev = getattr(f._coordinator, '_done_event', None)
+            if c['done_before'] and ev is not None and ev.is_set():
+                try:
+                    f.result()
+                    c['before'] = ('ok', None)
+                except SchedAbort:
+                    raise
+                except BaseException as e:  # noqa
+                    c['before'] = ('exc', e)
             c['step'] = sched.step
             api('cancel.begin', t=ti, done=c['done_before'],
                 status=c['status_before'])
@@ -560,6 +590,10 @@ def run_case(case, repo_checks=True):
                 for e in left:
                     e.shutdown(wait=True)
                 R.end['final_step'] = sched.step
+                if all(r['future'] is None or r['outcome'] is not None
+                       for r in all_recs()):
+                    from .oracles import semaphore_state
+                    R.sem_state = semaphore_state(R)
 
     with patched(sched, case.get('adj'), case.get('agg')):
         try:
